@@ -1500,15 +1500,20 @@ void TasmanianSparseGrid::readAscii(std::istream &ifs){
     }else if (T.compare("empty") != 0){
         throw std::runtime_error("ERROR: wrong file format, unknown grid type (or corrupt file)");
     }
+    // an empty grid has no dimensions: a file that gives it a transform, limits or construction data is not a Tasmanian grid
+    auto num_dims = [&]()->int{
+        if (!new_base) throw std::runtime_error("ERROR: wrong file format, an empty grid cannot have transforms, limits or construction data");
+        return new_base->getNumDimensions();
+    };
     getline(ifs, T); // read an empty line
     getline(ifs, T);
     bool reached_eof = false;
     if (T.compare("TASMANIAN SG end") == 0){ // version 3.0 did not include domain transform
         reached_eof = true;
     }else if (T.compare("custom") == 0){ // handle domain transform
-        new_domain_transform_a.resize(new_base->getNumDimensions());
-        new_domain_transform_b.resize(new_base->getNumDimensions());
-        for(int j=0; j<new_base->getNumDimensions(); j++){
+        new_domain_transform_a.resize(num_dims());
+        new_domain_transform_b.resize(num_dims());
+        for(int j=0; j<num_dims(); j++){
             ifs >> new_domain_transform_a[j] >> new_domain_transform_b[j];
         }
         getline(ifs, T);
@@ -1518,7 +1523,7 @@ void TasmanianSparseGrid::readAscii(std::istream &ifs){
     if (!reached_eof){ // handle conformal maps, added in version 5.0
         getline(ifs, T);
         if (T.compare("asinconformal") == 0){
-            new_conformal_asin_power = IO::readVector<IO::mode_ascii_type, int>(ifs, new_base->getNumDimensions());
+            new_conformal_asin_power = IO::readVector<IO::mode_ascii_type, int>(ifs, num_dims());
             getline(ifs, T);
         }else if (T.compare("TASMANIAN SG end") == 0){
             // for compatibility with version 4.0/4.1 and the missing conformal maps
@@ -1530,7 +1535,7 @@ void TasmanianSparseGrid::readAscii(std::istream &ifs){
     if (!reached_eof){ // handle level limits, added in version 5.1
         getline(ifs, T);
         if (T.compare("limited") == 0){
-            new_llimits = IO::readVector<IO::mode_ascii_type, int>(ifs, new_base->getNumDimensions());
+            new_llimits = IO::readVector<IO::mode_ascii_type, int>(ifs, num_dims());
             getline(ifs, T);
         }else if (T.compare("unlimited") == 0){
             new_llimits = std::vector<int>();
@@ -1544,6 +1549,7 @@ void TasmanianSparseGrid::readAscii(std::istream &ifs){
         getline(ifs, T);
         if (T.compare("constructing") == 0){
             new_using_dynamic_construction = true;
+            num_dims();
             new_base->readConstructionData(ifs, mode_ascii);
             getline(ifs, T); // clear the final std::endl after reading the block
         }else if (T.compare("TASMANIAN SG end") == 0){
@@ -1594,24 +1600,30 @@ void TasmanianSparseGrid::readBinary(std::istream &ifs){
         };
     }(IO::readNumber<IO::mode_binary_type, char>(ifs));
 
+    // an empty grid has no dimensions: a file that gives it a transform, limits or construction data is not a Tasmanian grid
+    auto num_dims = [&]()->int{
+        if (!new_base) throw std::runtime_error("ERROR: wrong binary file format, an empty grid cannot have transforms, limits or construction data");
+        return new_base->getNumDimensions();
+    };
+
     char flag = IO::readNumber<IO::mode_binary_type, char>(ifs);
     if (flag == 'y'){
-        new_domain_transform_a = IO::readVector<IO::mode_binary_type, double>(ifs, new_base->getNumDimensions());
-        new_domain_transform_b = IO::readVector<IO::mode_binary_type, double>(ifs, new_base->getNumDimensions());
+        new_domain_transform_a = IO::readVector<IO::mode_binary_type, double>(ifs, num_dims());
+        new_domain_transform_b = IO::readVector<IO::mode_binary_type, double>(ifs, num_dims());
     }else if (flag != 'n'){
         throw std::runtime_error("ERROR: wrong binary file format, wrong domain type");
     }
 
     flag = IO::readNumber<IO::mode_binary_type, char>(ifs); // conformal domain transform?
     if (flag == 'a'){
-        new_conformal_asin_power = IO::readVector<IO::mode_binary_type, int>(ifs, new_base->getNumDimensions());
+        new_conformal_asin_power = IO::readVector<IO::mode_binary_type, int>(ifs, num_dims());
     }else if (flag != 'n'){
         throw std::runtime_error("ERROR: wrong binary file format, wrong conformal transform type");
     }
 
     flag = IO::readNumber<IO::mode_binary_type, char>(ifs); // limits
     if (flag == 'y'){
-        new_llimits = IO::readVector<IO::mode_binary_type, int>(ifs, new_base->getNumDimensions());
+        new_llimits = IO::readVector<IO::mode_binary_type, int>(ifs, num_dims());
     }else if (flag != 'n'){
         throw std::runtime_error("ERROR: wrong binary file format, wrong level limits");
     }
@@ -1620,6 +1632,7 @@ void TasmanianSparseGrid::readBinary(std::istream &ifs){
     flag = IO::readNumber<IO::mode_binary_type, char>(ifs); // construction data
     if (flag == 'c'){ // handles additional data for dynamic construction, added in version 7.0 (development 6.1)
         new_using_dynamic_construction = true;
+        num_dims();
         new_base->readConstructionData(ifs, mode_binary);
     }else if (flag == 'e'){
         reached_eof = true;
